@@ -20,7 +20,7 @@ Theorem sig_covered_agree_interest : forall (sha256 : bytes -> bytes), (forall x
   let need := match app with Some _ => true | None => false end in
   let pre := strip_digest nm in
   let nm1 := if need then pre ++ [mkc 2 zeros32] else pre in
-  int_siginfo sg need = Ok (si, est) -> 0 < est -> name_ok pre -> (app = None -> existsb is_digest_comp pre = false) ->
+  int_siginfo sg need = Ok (si, est) -> 0 < est -> name_ok pre ->
   iconfig_ok cfg -> signer_ok sg -> signer_int_ok sg -> int_fits nm1 cfg app si est ->
   make_interest sha256 sign nm cfg app sg = Ok e ->
   forall r, View r (concat (e_wire e)) 0 -> exists i cov, read_interest sha256 r = ROk i cov /\ concat cov = concat (e_cov e).
